@@ -27,11 +27,14 @@ type c08Scn struct {
 	// ViaVars: the mode is given through the INPUTMODE/OUTPUTMODE variables instead of Config fields.
 	ViaVars bool `json:"via_vars,omitempty"`
 	// Where: stdin | file
-	Where string        `json:"where,omitempty"`
-	BOM   bool          `json:"bom,omitempty"`
-	Data  core.Bytes    `json:"data,omitempty"`
-	D     core.Delivery `json:"delivery"`
-	Enum  string        `json:"enum,omitempty"`
+	Where string `json:"where,omitempty"`
+	BOM   bool   `json:"bom,omitempty"`
+	// Side: before looking at a record's fields the program reads a line of another CSV file
+	// into a variable (getline var <file must not disturb the current record)
+	Side bool          `json:"side,omitempty"`
+	Data core.Bytes    `json:"data,omitempty"`
+	D    core.Delivery `json:"delivery"`
+	Enum string        `json:"enum,omitempty"`
 	// round trip
 	Rows   [][]core.Bytes `json:"rows,omitempty"`
 	Writer string         `json:"writer,omitempty"` // print | rebuild
@@ -77,7 +80,7 @@ var c08funcs = map[string]any{
 	"v":     func(r, i int) string { return string(c08rows[r-1][i-1]) },
 }
 
-const c08ReadProg = `{ for (i = 1; i <= NF; i++) fld(NR, i, $i); rec(NR, NF, $0) } END { fin(NR) }`
+const c08ReadProg = `{ if (side) getline sidevar < "side"; for (i = 1; i <= NF; i++) fld(NR, i, $i); rec(NR, NF, $0) } END { fin(NR) }`
 const c08ReadHdrProg = `NR == 1 { for (i = 1; i in FIELDS; i++) hdr(i, FIELDS[i]) }
 { for (i = 1; i <= NF; i++) fld(NR, i, $i); rec(NR, NF, $0); if (nm != "") named(@nm) } END { fin(NR) }`
 const c08RebuildProg = `BEGIN { n = nrows(); for (r = 1; r <= n; r++) { $0 = ""; k = ncols(r); for (i = 1; i <= k; i++) $i = v(r, i); print } }`
@@ -172,6 +175,7 @@ func (c08Engine) Gen(r *core.Rand, tier string, i int) any {
 	sc.BOM = r.Chance(1, 5)
 	if r.Chance(1, 6) {
 		sc.Where = "file"
+		sc.Side = r.Bool()
 	}
 	sep := string(c08SepRune(sc))
 	alpha := []string{sep, sep, sep, "\"", "\"", "\"\"", "\r", "\n", "\n", "\r\n", " ", "a", "b", "x"}
@@ -307,6 +311,9 @@ func c08ExecRead(sc *c08Scn, data []byte, d core.Delivery, nm string, log *core.
 	if sc.Header {
 		cfg.Vars = append(cfg.Vars, "nm", nm)
 	}
+	if sc.Side && sc.Where == "file" && !sc.Header {
+		cfg.Vars = append(cfg.Vars, "side", "1")
+	}
 	var sim *core.SimReader
 	var shaped *core.ShapedReader
 	if sc.Where == "file" {
@@ -316,6 +323,7 @@ func c08ExecRead(sc *c08Scn, data []byte, d core.Delivery, nm string, log *core.
 		}
 		defer fs.Remove()
 		_ = fs.Put("f0", data)
+		_ = fs.Put("side", []byte("s1,s2,s3\nt1,t2\n\"u,1\",u2,u3,u4\n"))
 		cfg.OpenFile = fs.Open
 		cfg.Args = []string{"f0"}
 		interp.VerifWrapReader = func(r io.Reader) io.Reader {
@@ -745,7 +753,10 @@ func (c08Engine) Shrink(scAny any) []any {
 		add(func(c *c08Scn) { c.ViaVars = false })
 	}
 	if sc.Where == "file" {
-		add(func(c *c08Scn) { c.Where = "stdin" })
+		add(func(c *c08Scn) { c.Where, c.Side = "stdin", false })
+	}
+	if sc.Side {
+		add(func(c *c08Scn) { c.Side = false })
 	}
 	if sc.Header {
 		add(func(c *c08Scn) { c.Header = false })
